@@ -66,7 +66,7 @@ func checkC09(c *Ctx) {
 	c.Floor("C09.R12", 10)
 	premiseEqual(c, "C09.R13", "a transformation between references that Equal wrongly holds equal is the identity instead of what proj4js computes")
 	c.Floor("C09.R13", 9)
-	c.Floor("C09.R7", 4)
+	c.Floor("C09.R7", 2)
 	c.Floor("C09.R6", 1)
 	c.Floor("C09.R1", 60)
 	c.Floor("C09.R2", 1)
@@ -210,7 +210,14 @@ func (a *c09) tables() {
 			}
 		}
 		if best == "" {
-			c.Bad("C09.R1", "proj#"+spec.label+"-table", token.NoPos, "no Go table shares a key with proj4js %s", spec.file)
+			// the table may be a function of the name (a switch): evaluate it on every name
+			if fname, ft := a.funcTable(js); ft != nil {
+				best = fname
+				goTables[best] = ft
+			}
+		}
+		if best == "" {
+			c.Unk("C09.R1", "proj#"+spec.label+"-table", token.NoPos, "no package-level map and no function of a name gives the entries of proj4js %s: the table is kept some other way", spec.file)
 			continue
 		}
 		gt := goTables[best]
@@ -325,6 +332,95 @@ func (a *c09) tables() {
 			}
 		}
 	}
+}
+
+// funcTable: a package function from a name to a number (and, optionally, a found flag or an error)
+// read as a table over the names of js and the string constants it mentions itself — for tables
+// whose proj4js entries are one number each.
+func (a *c09) funcTable(js jsTable) (string, map[string]*goEntry) {
+	for _, e := range js {
+		if len(e) != 1 {
+			return "", nil
+		}
+		for _, v := range e {
+			if !v.isNum {
+				return "", nil
+			}
+		}
+	}
+	m, _ := newC20m(a.c)
+	if m == nil {
+		return "", nil
+	}
+	strT := types.Typ[types.String]
+	bestName, bestN := "", 0
+	var bestT map[string]*goEntry
+	for _, fn := range a.c.P.RepoFuncs() {
+		if a.c.P.DeclPkg(fn) != a.p || a.c.P.Decl(fn) == nil {
+			continue
+		}
+		sig := fn.Type().(*types.Signature)
+		if sig.Recv() != nil || sig.Params().Len() != 1 || sig.Results().Len() < 1 || sig.Results().Len() > 2 {
+			continue
+		}
+		if b, ok := sig.Params().At(0).Type().Underlying().(*types.Basic); !ok || b.Kind() != types.String {
+			continue
+		}
+		if !isFloat64(sig.Results().At(0).Type()) {
+			continue
+		}
+		keys := map[string]bool{}
+		for k := range js {
+			keys[k] = true
+		}
+		ast.Inspect(a.c.P.Decl(fn).Body, func(n ast.Node) bool {
+			if bl, ok := n.(*ast.BasicLit); ok && bl.Kind == token.STRING {
+				if s, err := strconv.Unquote(bl.Value); err == nil {
+					keys[s] = true
+				}
+			}
+			return true
+		})
+		t := map[string]*goEntry{}
+		hits := 0
+		for k := range keys {
+			res, why := m.it.Call(fn, nil, []oval{strVal(strT, k)}, 0)
+			if why != "" || len(res) == 0 {
+				continue
+			}
+			if len(res) == 2 {
+				if b, isB := res[1].(oBool); isB && !bool(b) {
+					continue // not in the table
+				}
+				if eq, ok := oEqual(res[1], oNil{}); ok && !eq {
+					continue // an error: not in the table
+				}
+			}
+			p, ok := symOf(res[0])
+			if !ok {
+				continue
+			}
+			r, ok := symConst(p)
+			if !ok {
+				continue
+			}
+			f, _ := r.Float64()
+			if _, inJS := js[k]; !inJS && f == 0 {
+				continue // a name the function does not know either (zero for unknown names)
+			}
+			t[k] = &goEntry{nums: map[string]float64{"": f}, strs: map[string]string{}, arrs: map[string][]float64{}, sarr: map[string][]string{}, pos: a.c.P.Decl(fn).Pos()}
+			if _, inJS := js[k]; inJS {
+				hits++
+			}
+		}
+		if hits > bestN {
+			bestName, bestN, bestT = a.c.P.FuncName(fn), hits, t
+		}
+	}
+	if bestN*2 < len(js) {
+		return "", nil
+	}
+	return bestName, bestT
 }
 
 func fmtNum(v float64, ok bool) string {
